@@ -12,6 +12,8 @@ HARNESSES = [
     Harness('c06_list_u8_memory_balanced', 'heap.list_u8_param_and_result', G + 'list<u8>', bounded=HEAP),
     Harness('c06_list_u32_memory_balanced', 'heap.list_u32_param_and_result', G + 'list<u32> (element size 4, alignment 4)', bounded=HEAP),
     Harness('c06_variant_string_memory_balanced', 'heap.variant_string_case', G + 'variant whose string case owns a buffer: post-return frees exactly when the result holds one', bounded=HEAP),
+    Harness('c06_list_of_pairs_memory_balanced', 'heap.list_of_tuples', G + 'list<tuple<u8, u32, u8>>: host buffer freed by the guest after conversion, result buffer freed by post-return', bounded=HEAP),
+    Harness('c06_import_nested_list_scratch_alive_during_call_freed_once', 'heap.import_nested_list_scratch_alive_during_call_freed_once', G + 'import with option<list<string>>: ListLower + Cleanup / cleanup_list scoping (crates/rust/src/bindgen.rs)', bounded=HEAP),
 ]
 # about nine minutes of CBMC: thorough tier only
 THOROUGH = [
@@ -26,7 +28,7 @@ def run(rep, tier):
                'Observed: freed twice, freed with a layout other than the one it was allocated with, anything left allocated after post-return. '
                'Because a stub cannot call the function it replaces, memory is never returned to the model: a read after free is NOT observed; '
                'out-of-bounds accesses are (CBMC pointer checks).')
-    d = rustgen.generate(rep, 'rustgen_val')
+    d = rustgen.generate(rep, 'rustgen_val', mock=True)
     hs = HARNESSES + (THOROUGH if tier == 'thorough' else [])
     if tier != 'thorough':
         rep.notes.append('the list<string> obligation (nested element-wise list, ~9 min of CBMC) runs in the thorough tier only')
